@@ -43,6 +43,11 @@ CHECKS["C08"] = dict(level="exploration", engine="seqx",
    text="Codec: all 17.6 M sequences of <=3 pairs over 20 values (-0, ulp neighbours, subnormal, extremes, +Inf, XOR leading-zero counts 11/12/31/32/52/63) x 13 deltas (delta-of-delta across every field boundary) through Compressor/DecompressIterator must decode bit-identically (length 4 over a 12x8 core in thorough). End to end (whole server booted in the worker, OpenTSDB put endpoint in, Prometheus range-query endpoint out): every ordered pair of values on one series x block/segment rotation between x rotation/graceful restart after, and every ordered pair of series from 7 collision-prone tag sets with rotations between; per-series selectors must return exactly the accepted points bit-exactly, the metric name exactly the ingested series.",
    note="Segment rotation is the size-triggered one (forced rotation is the shutdown flush and is only used before a restart); the 5 s metadata re-read is fired explicitly after it. Known: -0.0 loses its sign; tag sets colliding under the key__value join are merged; a series first seen after a segment rotation is not returned. Tag-listing APIs are not yet compared.",
    ref="DESIGN.md §4 C08")
+CHECKS["C09"] = dict(level="exploration", engine="seqx",
+   technique="bounded-exhaustive enumeration of label-set subsets x matcher sets x aggregation/grouping clauses x vector arithmetic x layouts on the real server, against a Go PromQL label-set model",
+   text="Metric m on every non-empty subset of a 2x2 label universe (15) plus a second metric on a different subset, 3 shared timestamps, under open / block-rotated / segment-rotated / restarted layouts: all 624 matcher sets of <=2 matchers over =,!=,=~,!~ and values a, b, a|b, .*, .+, empty; sum/min/max/avg/count x 6 grouping clauses; m op n and m op 2 for + - * /. Every returned label set, timestamp and value is compared with the model (which also gives avg = sum/count, min <= avg <= max, by-all-labels = identity).",
+   note="Grid discipline: shared timestamps, windows <= 360 s, so no look-back rule is needed; __name__ ignored. Known: `without` removing all labels returns nothing.",
+   ref="DESIGN.md §4 C09")
 NOT_YET = {}
 props = [json.loads(l) for l in open("properties.jsonl")]
 m = {"version": 1, "setup_cmd": "./vcheck setup",
